@@ -260,6 +260,61 @@ def popLoop : Nat → Nat → QState → Except Err (List Cell × QState)
 def popBuffer (n : Nat) (s : QState) : Except Err (List Cell × QState) :=
   if n = 0 then .error .valueError else popLoop (3 * n + 3) n s
 
+/-! ### pop_buffer(n, decrement=False)
+
+The same loop with `next_trial(decrement=False)`: `pop_key` does not call `decrement_key`, so no counter
+changes and no key leaves the ordering. (The log entry's `decrement` flag, which `requeue` consults, is not
+modelled: these definitions are for pause-free histories only and no theorem mentions them; they exist so
+that the correspondence check can drive the real code through this argument as well.) -/
+
+def nextTrialND (s : QState) : Except Err (Option QState) :=
+  match nextKey s with
+  | .error e => .error e
+  | .ok none => .ok none
+  | .ok (some (key, s)) =>
+    match s.data[key]? with
+    | none => .error .keyError
+    | some e =>
+      if e.delays.length = 0 then .error .stopIteration else
+      match e.delays[e.dpos % e.delays.length]? with
+      | none => .error .stopIteration
+      | some d =>
+        if d < 0 then .error .valueError else
+        let info : Info := { uid := s.added.length, key := key, k := s.samples, dur := e.dur, len := e.len, delay := d }
+        .ok (some { s with
+          data := s.data.modify key (fun e => { e with dpos := e.dpos + 1 }),
+          source := some { key := key, off := 0, len := e.len, gen := e.gen },
+          delaySamples := d,
+          generated := s.generated ++ [info],
+          added := s.added ++ [info] })
+
+/-- `popIter` with `next_trial(decrement=False)` in its last branch; every other branch is `popIter`'s. -/
+def popIterND (n : Nat) (s : QState) : Except Err (List Cell × QState) :=
+  if s.paused then popIter n s
+  else match s.source with
+  | some _ => popIter n s
+  | none =>
+    if s.delaySamples > 0 then popIter n s
+    else
+      match nextTrialND s with
+      | .error e => .error e
+      | .ok none => .ok (zeros n, { s with empty := true, samples := s.samples + n })
+      | .ok (some s') => .ok ([], s')
+
+def popLoopND : Nat → Nat → QState → Except Err (List Cell × QState)
+  | _, 0, s => .ok ([], s)
+  | 0, _ + 1, _ => .error .fuel
+  | fuel + 1, n + 1, s =>
+    match popIterND (n + 1) s with
+    | .error e => .error e
+    | .ok (w, s') =>
+      match popLoopND fuel (n + 1 - w.length) s' with
+      | .error e => .error e
+      | .ok (ws, s'') => .ok (w ++ ws, s'')
+
+def popBufferND (n : Nat) (s : QState) : Except Err (List Cell × QState) :=
+  if n = 0 then .error .valueError else popLoopND (3 * n + 3) n s
+
 /-! ### pause / cancel / requeue / rewind / resume -/
 
 def endsAfter (m : Int) (i : Info) : Bool := i.k + i.dur > m
